@@ -402,6 +402,78 @@ def check_unroll(case, ctx: Ctx):
         run.close()
 
 
+# ------------------------------------------------------------------------------------------------------------
+# the same loops unrolled by the real Controller (deterministic runtime kit): the condition component's task writes
+# True for the first K iterations, then False; afterwards the graph must satisfy the same oracles
+def _case_files(case):
+    files = set()
+    for b in case["binds"]:
+        files.add(b.get("sfile"))
+        if b.get("loop"):
+            files.add(b["loop"].get("file"))
+    for comp in case["loop"]:
+        for u in comp["uses"]:
+            files.add(u.get("file"))
+    for c in case["cons"]:
+        for u in c["uses"]:
+            files.add(u.get("file"))
+    files.add(case["cond"].get("file"))
+    return sorted(f for f in files if f)
+
+
+def check_controller(case, ctx: Ctx):
+    from ..rt import driver as rtdriver
+    from .c02 import PatternChooser
+    K = min(case["k"], 3)
+    run = _Run([case], ctx)
+    try:
+        lp = run.loops[0]
+        m = lp.m
+        cond_name = case["loop"][case["cond"]["c"]]["name"]
+        cond_file = case["cond"].get("file") or "out.stdout"
+        files = _case_files(case)
+
+        class Backend(rtdriver.ScriptedBackend):
+            def __call__(self, job, outputFile=None, errorFile=None, **kw):
+                t = super().__call__(job, outputFile=outputFile, errorFile=errorFile, **kw)
+                wd = job.workingDirectory.path
+                for f in files:
+                    path = os.path.join(wd, f)
+                    os.makedirs(os.path.dirname(path), exist_ok=True)
+                    if not os.path.exists(path):
+                        with open(path, "w") as fh:
+                            fh.write("data\n")
+                name = job.componentSpecification.identification.componentName
+                if "#" in name and name.split("#", 1)[1] == cond_name:
+                    it = int(name.split("#", 1)[0])
+                    with open(os.path.join(wd, cond_file), "w") as fh:
+                        fh.write("True\n" if it < K else "False\n")
+                return t
+
+        drv = rtdriver.Driver(run.exp, PatternChooser("fifo"), {}, max_decisions=60000, max_items=400000)
+        drv.backend = Backend({})
+        res = drv.run()
+        if res.aborted:
+            if res.stuck:
+                raise Violation("controller-run-of-loop-never-terminates",
+                                "K=%d states=%s outcomes=%s" % (K, res.states, res.stage_outcomes))
+            ctx.rec.label("controller:inconclusive:" + res.aborted)
+            return
+        bad = [o for o in res.stage_outcomes if o["outcome"] != "completed"]
+        if bad:
+            raise Violation("controller-run-of-loop-failed", "K=%d outcomes=%s launch log=%s errors=%s" % (
+                K, res.stage_outcomes, res.launch_log[-12:], res.kernel_errors[:2]))
+        lp.k = K
+        run.wg = run.exp.experimentGraph
+        run.check()
+        ctx.rec.label("controller:K=%d" % K)
+        ctx.rec.nt(["controller", _shape_key(case), K], {"K": K, "S": case["S"],
+                                                          "loop": [(c["name"], c["ls"]) for c in case["loop"]],
+                                                          "launches": len(res.launch_log)}, group="controller")
+    finally:
+        run.close()
+
+
 def check_twoloops(case, ctx: Ctx):
     """Two DoWhile documents in one workflow, iterated in the interleaved order `steps`."""
     run = _Run(case["loops"], ctx)
@@ -531,8 +603,11 @@ def shard(ctx: Ctx):
     explore(ctx, "twoloops", c05_docs.two_loops_case(kmax=ctx.pick(12, 20), total=ctx.pick(16, 30)), check_twoloops,
             ctx.n(64, 1500), batch=ctx.pick(8, 50))
     explore(ctx, "latestfn", latestfn_case(), check_latestfn, ctx.n(2000, 100000), batch=1000)
+    explore(ctx, "controller", c05_docs.dowhile_case(kmax=3, kmin_bias=2, allow_reload=False), check_controller,
+            ctx.n(96, 3000), batch=ctx.pick(12, 50))
     anchors(ctx)
 
 
 def replay(sub, case, ctx: Ctx):
-    {"unroll": check_unroll, "twoloops": check_twoloops, "latestfn": check_latestfn}[sub or "unroll"](case, ctx)
+    {"unroll": check_unroll, "twoloops": check_twoloops, "latestfn": check_latestfn,
+     "controller": check_controller}[sub or "unroll"](case, ctx)
